@@ -407,4 +407,41 @@ Proof.
   assert (Hk : H (concat chunks) = k0) by exact (stored_sound H inflate (fst s) k0 _ HI Hs). rewrite Hk. exact Hs.
 Qed.
 
+(* ---- nothing is ever lost by a history without deletions, whenever it is interrupted ---- *)
+Definition is_delete (o : opn) : bool := match o with ODelete _ => true | _ => false end.
+Definition keeps (w0 : world) (w' : world) : Prop := forall k c, stored w0 k = Some c -> stored w' k = Some c.
+
+Lemma step_always_keeps s o : Inv (fst s) -> pending (snd s) = [] -> pre (fst s) o -> is_delete o = false ->
+  always (keeps (fst s)) s (prog (fst s) o).
+Proof.
+  intros HI Hp Hpre Hd. destruct s as [w l]. cbn [fst snd] in *. destruct o; cbn [prog pre is_delete] in *; try discriminate.
+  - intros m. exact (proj1 (proj2 (add_loose_crash_safe H inflate H_inj w l n chunks m HI))).
+  - destruct Hpre as (A & B & C). intros m. exact (proj1 (proj2 (pack_one_crash_safe H inflate H_inj w l id objs fs clean m HI Hp A B C))).
+  - intros m. exact (proj1 (proj2 (add_to_pack_crash_safe H inflate H_inj w l id objs nh twice fs m HI Hp Hpre))).
+  - intros m. exact (proj1 (proj2 (import_crash_safe H inflate H_inj w l bs nh twice fs m HI Hp Hpre))).
+  - intros m. exact (proj1 (proj2 (clean_crash_safe H inflate H_inj w l false vacuum order m HI Hp))).
+  - destruct Hpre as (Hid & Hno & [(Hne & Hobjs & Hcov)|(He & ->)]).
+    + intros m k c Hs. pose proof (repack_always H inflate H_inj w id objs HI Hid Hno Hobjs Hcov l false Hp Hne m) as (A & B & _).
+      exact (stored_preserved H inflate H_inj w _ k c HI A B Hs).
+    + intros m k c Hs. pose proof (repack_empty_always H inflate H_inj w l id false HI He m) as (A & B & _).
+      exact (stored_preserved H inflate H_inj w _ k c HI A B Hs).
+Qed.
+
+Theorem history_never_loses : forall ops s,
+  Inv (fst s) -> pending (snd s) = [] -> pre_hist s ops -> forallb (fun o => negb (is_delete o)) ops = true ->
+  forall n k c, stored (fst s) k = Some c -> stored (crash (run_events s (firstn n (hist_trace s ops)))) k = Some c.
+Proof.
+  induction ops as [|o t IH]; intros s HI Hp Hpre Hnd n k c Hs.
+  - cbn [hist_trace]. rewrite firstn_nil. exact Hs.
+  - destruct Hpre as [Ho Ht]. cbn [forallb] in Hnd. apply andb_prop in Hnd as [Hd Hnt]. apply negb_true_iff in Hd.
+    cbn [hist_trace].
+    destruct (step_refines s o HI Hp Ho) as (I' & P' & _).
+    pose proof (step_always_keeps s o HI Hp Ho Hd) as A1.
+    assert (A : always (keeps (fst s)) s (prog (fst s) o ++ hist_trace (run_events s (prog (fst s) o)) t)).
+    { apply always_app; [exact A1|].
+      intros m k' c' Hs'. apply (IH _ I' P' Ht Hnt m k' c').
+      pose proof (A1 (length (prog (fst s) o))) as Aend. rewrite firstn_all in Aend. exact (Aend k' c' Hs'). }
+    exact (A n k c Hs).
+Qed.
+
 End Hist.
